@@ -310,12 +310,27 @@ def load_findings(prop):
     return opened, fixed
 
 
+PREDICATES = {}     # name -> fn(violation, params) -> bool ; registered by the property modules
+
+
 def match_finding(v, findings):
+    """A finding matches by exact signature, by signature regex, or by a named predicate over the minimal witness
+    (the predicate may replay variants of the witness); 'signature_regex' and 'predicate' must both hold when both are given."""
     for f in findings:
-        rx = f.get("signature_regex")
-        if rx and re.search(rx, v["sig"]):
-            return f
-        if f.get("signature") and f["signature"] == v["sig"]:
+        ok = None
+        if f.get("signature") is not None:
+            ok = f["signature"] == v["sig"]
+        if f.get("signature_regex") is not None:
+            ok = (ok is not False) and re.search(f["signature_regex"], v["sig"]) is not None
+        if ok is not False and f.get("predicate") is not None:
+            fn = PREDICATES.get(f["predicate"]["name"])
+            try:
+                ok = bool(fn and fn(v, f["predicate"]))
+            except Inconclusive:
+                raise
+            except Exception:
+                ok = False
+        if ok:
             return f
     return None
 
